@@ -35,7 +35,7 @@ class Spec(CheckSpec):
                 yield {"seed": base_seed * 1000003 + 990000 + rep * 10 + len(name), "shipped": name, "max_episode_length": mel, "n_ops": nops, "monitors": ["c09"], "profile": {"push": 0.1}, "op_mix": {"step": 0.85, "reset": 0.05, "fault": 0.10}}
         for i in range(n):
             seed = base_seed * 1000003 + 90000000 + i
-            prof = {"obs": True, "push": 0.12, "tight_links": 0.15, "nmne": 0.7, "durations": [0, 1, 2, 3], "avoid": ["listen_on_ports"]}
+            prof = {"obs": True, "push": 0.12, "tight_links": 0.15, "nmne": 0.7, "durations": [0, 1, 2, 3]}
             yield {"seed": seed, "profile": prof, "n_ops": 50, "monitors": ["c09"], "op_mix": {"step": 0.75, "reset": 0.05, "fault": 0.20}}
 
     def extra_evidence(self, results):
